@@ -1155,3 +1155,111 @@ def program_c14_keys(rnd):
         else: e = Invoke(Var("m"), "remove", [a])
         mod.append(classify([Print(Str(f"#{k} {c}"), e, Invoke(Var("m"), "len", []))], k))
     return Module(mod)
+
+
+# ======================================================================================================
+# C10: object identity under mutation.  Subjects (lists, a map, an instance) are reached through aliases
+# kept in variables, list / tuple / map elements, fields, nested lists and closures; a history of mutations
+# through randomly chosen aliases is interleaved with ==, map lookups keyed by the subject, has/index and
+# prints through other aliases.  Everything runs either at module level or inside a function (locals).
+def program_c10(rnd):
+    import copy
+    pre = [
+        Class("Box", None, [Fn("init", ["v"], Block([ExprSt(PropSet(Self(), "v", Var("v"))), ExprSt(PropSet(Self(), "n", Num(0)))]), kind="init"),
+                            Fn("fill", ["k"], Block([Let("i", Num(0)), While(Bin("<", Var("i"), Var("k")), Block([
+                                ExprSt(Invoke(Prop(Self(), "v"), "push", [Var("i")])), ExprSt(Assign("i", Bin("+", Var("i"), Num(1))))])),
+                                Return(Prop(Self(), "v"))]), kind="method")]),
+        Fn("grow", ["x", "v"], Block([ExprSt(Invoke(Var("x"), "push", [Var("v")])), Return(Var("x"))])),
+        Fn("growN", ["x", "k"], Block([Let("i", Num(0)), While(Bin("<", Var("i"), Var("k")), Block([
+            ExprSt(Invoke(Var("x"), "push", [Var("i")])), ExprSt(Assign("i", Bin("+", Var("i"), Num(1))))])), Return(Var("x"))])),
+    ]
+    body = []
+    nsub = rnd.randint(1, 3)
+    kinds, lens, paths = [], [], []
+    for i in range(nsub):
+        kind = rnd.choice(["list", "list", "list", "map", "box"])
+        kinds.append(kind)
+        n = rnd.randint(0, 4)
+        lens.append(n)
+        if kind == "list": init = List([Num(10 * i + j) for j in range(n)])
+        elif kind == "map": init = MapLit([])
+        else: init = Call(Var("Box"), [List([])])
+        body.append(Let(f"a{i}", init))
+        ps = [Var(f"a{i}")]
+        # aliases in other places
+        if rnd.random() < 0.7:
+            body.append(Let(f"b{i}", Var(f"a{i}"))); ps.append(Var(f"b{i}"))
+        if rnd.random() < 0.7:
+            body.append(Let(f"h{i}", List([Num(-1), Var(f"a{i}")]))); ps.append(Index(Var(f"h{i}"), Num(1)))
+        if rnd.random() < 0.5:
+            body.append(Let(f"n{i}", List([List([Var(f"a{i}")])]))); ps.append(Index(Index(Var(f"n{i}"), Num(0)), Num(0)))
+        if rnd.random() < 0.5:
+            body.append(Let(f"t{i}", Tuple([Var(f"a{i}"), Num(0)]))); ps.append(Index(Var(f"t{i}"), Num(0)))
+        if rnd.random() < 0.5:
+            body.append(Let(f"x{i}", Call(Var("Box"), [Var(f"a{i}")]))); ps.append(Prop(Var(f"x{i}"), "v"))
+        if rnd.random() < 0.5:
+            body.append(Let(f"m{i}", MapLit([(Str("k"), Var(f"a{i}"))]))); ps.append(Index(Var(f"m{i}"), Str("k")))
+        if rnd.random() < 0.5:
+            body.append(Let(f"g{i}", Lambda([], Var(f"a{i}")))); ps.append(Call(Var(f"g{i}"), []))
+        paths.append(ps)
+    # the subjects as map keys and as members of a list and a tuple
+    body.append(Let("km", MapLit([])))
+    for i in range(nsub):
+        body.append(ExprSt(IndexSet(Var("km"), copy.deepcopy(rnd.choice(paths[i])), Str(f"entry{i}"))))
+    body.append(Let("members", List([copy.deepcopy(rnd.choice(paths[i])) for i in range(nsub)])))
+    body.append(Let("tmembers", Tuple([copy.deepcopy(rnd.choice(paths[i])) for i in range(nsub)] + [Nil()])))
+    P = lambda i: copy.deepcopy(rnd.choice(paths[i]))
+    k = 0
+    for _ in range(rnd.randint(4, 10)):
+        k += 1
+        i = rnd.randrange(nsub)
+        p = P(i)
+        if kinds[i] == "list":
+            ops = ["push", "push3", "grow", "growN", "insert"] + (["remove", "pop", "set", "clear"] if lens[i] > 0 else [])
+            op = rnd.choice(ops)
+            if op == "push": st = ExprSt(Invoke(p, "push", [Num(100 + k)])); lens[i] += 1
+            elif op == "push3": st = ExprSt(Invoke(p, "push", [Num(100 + k), Num(200 + k), Num(300 + k)])); lens[i] += 3
+            elif op == "grow": st = Print(Str(f"#{k} grow"), Bin("==", Call(Var("grow"), [p, Num(100 + k)]), P(i))); lens[i] += 1
+            elif op == "growN":
+                c = rnd.choice([1, 2, 5, 9]); st = Print(Str(f"#{k} growN"), Bin("==", Call(Var("growN"), [p, Num(c)]), P(i))); lens[i] += c
+            elif op == "insert": st = ExprSt(Invoke(p, "insert", [Num(rnd.randint(0, lens[i])), Num(100 + k)])); lens[i] += 1
+            elif op == "remove": st = ExprSt(Invoke(p, "remove", [Num(rnd.randrange(lens[i]))])); lens[i] -= 1
+            elif op == "pop": st = ExprSt(Invoke(p, "pop", [])); lens[i] -= 1
+            elif op == "set": st = ExprSt(IndexSet(p, Num(rnd.randrange(lens[i])), Num(100 + k)))
+            else: st = ExprSt(Invoke(p, "clear", [])); lens[i] = 0
+        elif kinds[i] == "map":
+            op = rnd.choice(["mset", "mset", "mremove"])
+            key = rnd.choice([Num(1), Str("a"), Num(2), Str("b"), Num(3), Num(4), Num(5), Num(6)])
+            if op == "mset" or lens[i] == 0: st = ExprSt(IndexSet(p, key, Num(100 + k))); lens[i] = 1
+            else: st = classify([ExprSt(Invoke(p, "remove", [key]))], k)
+        else:
+            op = rnd.choice(["field", "fill", "fieldpush"])
+            if op == "field": st = ExprSt(PropSet(p, "n", Num(k)))
+            elif op == "fill": st = Print(Str(f"#{k} fill"), Bin("==", Invoke(p, "fill", [Num(rnd.choice([1, 3, 6]))]), Prop(P(i), "v")))
+            else: st = ExprSt(Invoke(Prop(p, "v"), "push", [Num(k)]))
+        body.append(st)
+        # observations
+        for _ in range(rnd.randint(1, 3)):
+            c = rnd.choice(["eq", "eq", "key", "has", "see", "cross"])
+            j = rnd.randrange(nsub)
+            if c == "eq": body.append(Print(Str(f"#{k} eq{j}"), Bin("==", P(j), P(j)), Bin("!=", P(j), P(j))))
+            elif c == "cross":
+                j2 = rnd.randrange(nsub)
+                body.append(Print(Str(f"#{k} cross{j}{j2}"), Bin("==", P(j), P(j2))))
+            elif c == "key":
+                body.append(Print(Str(f"#{k} key{j}"), Invoke(Var("km"), "has", [P(j)]), Invoke(Var("km"), "get", [P(j)]), Invoke(Var("km"), "len", [])))
+                if rnd.random() < 0.3:
+                    body.append(classify([Print(Str(f"#{k} idx{j}"), Index(Var("km"), P(j)))], 1000 + k))
+                if rnd.random() < 0.2:
+                    body.append(ExprSt(IndexSet(Var("km"), P(j), Str(f"again{j}"))))
+            elif c == "has":
+                body.append(Print(Str(f"#{k} has{j}"), Invoke(Var("members"), "has", [P(j)]), Invoke(Var("members"), "index", [P(j)]),
+                                  Invoke(Var("tmembers"), "has", [P(j)]), Invoke(Var("tmembers"), "index", [P(j)])))
+            else:
+                if kinds[j] == "list": body.append(Print(Str(f"#{k} see{j}"), P(j), Invoke(P(j), "len", [])))
+                elif kinds[j] == "map": body.append(Print(Str(f"#{k} see{j}"), Invoke(P(j), "len", [])))
+                else: body.append(Print(Str(f"#{k} see{j}"), Prop(P(j), "n"), Prop(P(j), "v")))
+    body.append(Print(Str("end"), Invoke(Var("km"), "len", [])))
+    if rnd.random() < 0.5:
+        return Module(pre + body)
+    return Module(pre + [Fn("main", [], Block(body)), ExprSt(Call(Var("main"), []))])
